@@ -95,6 +95,11 @@ def bytesVerdict (k : Key) (out : Str) : Option String :=
   else none
 
 def keyVerdict (u : Uni) (k : Key) (md : Modes) (seqs : List PSeq) (dkTok : String) (outTok : String := "") : String :=
+  -- a key release is not a key press: the xterm encoding has no releases, nothing may be written
+  if k.event = Gen.Keys.EventRelease then
+    (if seqs.isEmpty ∧ (outTok = "-" ∨ outTok = "") then "ok"
+     else "FAIL [release forwarded] a key release was written to the child, which reads it as the key pressed again")
+  else
   let xm := xtermMods k
   -- cursor-key mode selects the encoding
   let cursor : Option String :=
@@ -193,7 +198,7 @@ def specModes (seqs : List ChildSeq) : Modes := specModesOfStream seqs
 /-- `mdM` = the modes the model of the code is in, `mdS` = the modes the child selected according to
     the Spec (they coincide for the ops that set the modes through the hook). -/
 def keyStep (u : Uni) (k : Key) (mdM mdS : Modes) (impl : String) : String :=
-  let out := encodeXterm u k mdM.deckpam mdM.decckm
+  let out := update u mdM (.key k)
   let seqTok := field impl 1
   match parsePSeqs? seqTok with
   | none => bad
